@@ -1,5 +1,6 @@
 import AsynqModel.Sexp
 import AsynqModel.Lib.Contexts
+import AsynqModel.Lib.ContextsWith
 /-! driver glue for mode `ctxhist` (histories of context operations on one task; properties C06 / C07) -/
 namespace AsynqModel.Drv.Contexts
 open AsynqModel AsynqModel.Contexts
@@ -121,5 +122,60 @@ def handle (id : Nat) (hdr : List Sexp) (body : List Sexp) : String :=
     let f (s : String) := if s == "ok" then "ok" else "fail:" ++ s
     s!"R {id} CORR={c} SPEC={f spec} SPECM={f specm} | {d}"
   | _, _, _ => s!"R {id} CORR=diff SPEC=ok SPECM=ok | unparsable ctxhist case"
+
+/-! ### mode `ctxwith`: histories whose first `nb` contexts are REAL with-blocks of the task's generator
+    (Lib/ContextsWith.lean: `generator.close()` and `return`/exceptions of the body run their `__exit__`s) -/
+
+def excTok : Exc → String
+  | .hookR c => s!"(hookR {c})" | .hookP c => s!"(hookP {c})" | .assertion => "assertion" | .attrError => "attrError"
+  | .keyError => "keyError" | .taskError => "taskError" | .other => "other"
+
+/-- the exception that left the scheduler loop first (a suspend / continue observation with an escaping exception) -/
+def firstEscape (obs : List Obs) : Option Exc :=
+  match obs.find? escapes with
+  | some ob => (match ob.esc with | .exc e => some e | _ => none)
+  | none => none
+
+/-- the line after the history, read as an OBSERVATION: (status, what value() raised, clean, next computation ok) -/
+def final? : Sexp → Option (Option Status × String × Nat × Nat × Nat × Nat)
+  | .list [.atom "final", .list [.atom "status", st], .list [.atom "escaped", esc], .list [.atom "clean", c],
+      .list [.atom "batches", b, lb], .list [.atom "next", n]] => do
+    some (status? st, toString esc, (← c.nat?), (← b.nat?), (← lb.nat?), (← n.nat?))
+  | _ => none
+
+/-- `hdr` = `(typed b) (ctxs ...) (vars n) (blocks nb)` -/
+def handleW (id : Nat) (hdr : List Sexp) (body : List Sexp) : String :=
+  match hdr, (body.dropLast).mapM obs?, body.getLast?.bind final? with
+  | [t, c, v, .list [.atom "blocks", nbS]], some impl, some (fst, fesc, fclean, fb, flb, fnext) =>
+    match hdr? [t, c, v], nbS.nat? with
+    | some h, some nb =>
+      let ops := impl.map (·.op)
+      let w0 := initW h.defs h.nvars nb
+      let model := runW (codeCfg h.typed) h.defs w0 ops
+      let wf := finalStateW (codeCfg h.typed) h.defs w0 ops
+      let corr := firstDiff model impl
+      -- what the model predicts for the final line: the task's outcome; value() raises the exception that left the
+      -- scheduler loop, else the task's own error; the task stack is dirty exactly when an exception left the loop
+      let expEsc := match firstEscape model with
+        | some e => excTok e
+        | none => (match wf.s.status with | .err _ => "task-error" | _ => "none")
+      let expB := if wf.stale then 1 else 0
+      let finCorr := fst == some wf.s.status && fesc == expEsc && fclean == (if wf.dirty then 0 else 1) && fnext == 1 &&
+        fb == expB && flb == expB
+      -- the property on the implementation's observations alone
+      let spec0 := specClauseW impl
+      let finSpec := fclean == 1 && fnext == 1 && (fesc == "none" || fesc == "task-error")
+      let spec := if spec0 != "ok" then spec0 else if !finSpec then "nothing-else-escapes"
+        else if fb != 0 || flb != 0 then "scheduler-retains-pending-batch" else "ok"
+      let specm := if specClauseW model != "ok" then specClauseW model else if wf.dirty then "nothing-else-escapes"
+        else if wf.stale then "scheduler-retains-pending-batch" else "ok"
+      let cstr := match corr with | none => (if finCorr then "ok" else "diff") | some _ => "diff"
+      let d := match corr with
+        | none => if finCorr then "" else s!"final line: model status {repr wf.s.status} escaped {expEsc} dirty {wf.dirty} stale {wf.stale}"
+        | some (i, s) => (s!"obs {i}: {s}".replace "\n" " ")
+      let f (s : String) := if s == "ok" then "ok" else "fail:" ++ s
+      s!"R {id} CORR={cstr} SPEC={f spec} SPECM={f specm} | {d}"
+    | _, _ => s!"R {id} CORR=diff SPEC=ok SPECM=ok | unparsable ctxwith header"
+  | _, _, _ => s!"R {id} CORR=diff SPEC=ok SPECM=ok | unparsable ctxwith case"
 
 end AsynqModel.Drv.Contexts
